@@ -45,6 +45,8 @@ class Pair:
         self.handed: dict[str, list] = {"X": [], "Y": []}  # application messages handed up at each side
         self.gave_up: dict[str, set] = {"X": set(), "Y": set()}
         self.viol: list = []
+        self.aged = False
+        self.dup_used = False
 
     def message(self, side: str, i: int):
         return msg.DatasetPurge(ds=DatasetId(side, str(i)))
@@ -60,6 +62,8 @@ class Pair:
             if self.faults_left > 0:
                 evs.append(("drop", k))
                 evs.append(("dup", k))
+        if self.net.flight and self.dup_used and not self.aged:
+            evs.append(("age",))  # a duplicated frame is delayed for an hour before it arrives (once per history)
         for s in "XY":
             # a retry timer firing while frames are still in flight is a deviation (budgeted); otherwise it is free
             if self.S[s].inflight and not self.gave_up[s] and (not self.net.flight or self.early_left > 0):
@@ -85,6 +89,10 @@ class Pair:
             else:
                 self.net.duplicate(i)
                 self.faults_left -= 1
+                self.dup_used = True
+        elif kind == "age":
+            self.clock[0] += 3_600_000_000_000
+            self.aged = True
         elif kind == "recv":
             self.recv(ev[1])
         elif kind == "tick":
@@ -124,7 +132,7 @@ class Pair:
             return tuple(pickle.loads(f) if f[:1] == b"\x80" else f for f in fr)
 
         return (
-            tuple(self.sent.items()), self.faults_left, self.early_left,
+            tuple(self.sent.items()), self.faults_left, self.early_left, self.aged, self.dup_used,
             tuple((s, sender(self.S[s]), tuple(sorted(map(repr, self.L[s].acked))), tuple(map(repr, self.handed[s])), bool(self.gave_up[s])) for s in "XY"),
             tuple((a, repr(frames(fr)), tag_rank) for (a, fr, _), tag_rank in zip(self.net.flight, self._tag_ranks())),
             tuple((a, tuple(repr(frames(fr)) for fr in q)) for a, q in sorted(self.net.queues.items()) if q),
